@@ -201,7 +201,7 @@ def xy(ctx):
     for _ in range(r.randint(0, 5)):
         X.iloc[r.randint(0, n - 1), r.randrange(3)] = np.nan
     for _ in range(r.randint(0, 3)):
-        Y.iloc[r.randint(1, n - 3), r.randrange(2)] = np.nan
+        Y.iloc[r.randint(12, n - 3), r.randrange(2)] = np.nan   # not on the first step dates (markov reset: empty book, DESIGN 4.2-e)
     window = r.choice([1, 2, 5])
     tf = r.choice([None, "z-score", "yeo-johnson"])
     kfit = r.randint(20, n // 2)
